@@ -111,6 +111,12 @@ func (s *State) relOf(a, b *Val) uint8 {
 	if a == nil || b == nil {
 		return RAny
 	}
+	if a.Canon != nil {
+		a = a.Canon
+	}
+	if b.Canon != nil {
+		b = b.Canon
+	}
 	if a == b || a.ID == b.ID {
 		return REq
 	}
@@ -148,6 +154,12 @@ func isNum(c constant.Value) bool {
 }
 
 func (s *State) setRel(a, b *Val, r uint8) {
+	if a.Canon != nil {
+		a = a.Canon
+	}
+	if b.Canon != nil {
+		b = b.Canon
+	}
 	if a.ID < b.ID {
 		s.rel[[2]int{a.ID, b.ID}] = r
 	} else {
